@@ -23,6 +23,13 @@ PY = "/venv/bin/python"
 STUB = os.path.join(HERE, "xsim", "numba_stub")
 
 
+def _verif_commit():
+    try:
+        return subprocess.check_output(["git", "-C", HERE, "log", "--format=%h", "-1"]).decode().strip()
+    except Exception:
+        return None
+
+
 def sh(cmd, cwd=None, env=None, timeout=3600):
     cp = subprocess.run(cmd, cwd=cwd, env=env, capture_output=True, text=True, timeout=timeout)
     return cp.returncode, cp.stdout + cp.stderr
@@ -101,6 +108,11 @@ def run(mid, props, runs=0, tier="quick"):
     for p, (rc, fps, details, tail) in res.items():
         meta["checks"][p] = {"exit": rc, "caught": rc == 1 and bool(fps), "fingerprints": fps[:6],
                              "first_detail": details[:2], "tier": tier, "runs": runs or "default"}
+        # the verdict of the checks as they were when the change was first evaluated is kept
+        meta.setdefault("first_run", {})
+        if p not in meta["first_run"]:
+            meta["first_run"][p] = {"caught": rc == 1 and bool(fps), "fingerprints": fps[:4],
+                                    "verif_commit": _verif_commit()}
         print(mid, p, "CAUGHT" if rc == 1 and fps else ("HARNESS" if rc == 2 else "MISSED"), fps[:4])
         if rc == 2:
             print(tail)
